@@ -360,7 +360,7 @@ PROPS = {
         work=[dict(driver="hist", args=["--nops", "70", "--per-file", "6", "--compact-bias", "1"],
                    quick=48, thorough=1200),
               dict(driver="hist", args=["--nops", "80", "--per-file", "6", "--profile", "local",
-                                        "--nkeys", "12", "--compact-bias", "1"],
+                                        "--nkeys", "12", "--compact-bias", "1", "--seek-bias", "1"],
                    quick=32, thorough=800)]),
     "C10": dict(
         design=[(CORE, [Q1], ["MC_RainCore_small.cfg"]), REOPEN],
